@@ -100,6 +100,8 @@ pub struct DocCfg {
     pub number_from: u32,
     /// weight of block references among the leaf blocks
     pub block_ref_weight: u32,
+    /// rewrite top-level heading levels so that they start at 1 and never skip a level
+    pub force_wellnested: bool,
 }
 
 impl DocCfg {
@@ -114,6 +116,7 @@ impl DocCfg {
             title_p: 0.0,
             number_from: 0,
             block_ref_weight: 3,
+            force_wellnested: false,
         }
     }
     fn on(&self, f: &str) -> bool {
@@ -471,8 +474,12 @@ pub fn block_in(cfg: &DocCfg, ctx: &'static str, depth: u32) -> BoxedStrategy<Bl
     let on = |k: &str| cfg.on(k) && (ctx == "top" || cfg.on(&format!("{}_in_{}", k, ctx)));
     let mut opts: Vec<(u32, BoxedStrategy<Blk>)> = vec![(8, leaf)];
     if on("list") {
-        let inner = block_in(cfg, "item", depth - 1);
-        let items = vec(item_blocks(cfg, inner), 1..5);
+        let mut icfg = cfg.clone();
+        if !cfg.on("link_in_item") {
+            icfg.features.off.insert("link".into());
+        }
+        let inner = block_in(&icfg, "item", depth - 1);
+        let items = vec(item_blocks(&icfg, inner), 1..5);
         opts.push((
             3,
             (any::<bool>(), prop_oneof![3 => Just(1u32), 1 => 0u32..30, 1 => 7u32..200], any::<bool>(), 0u8..3, any::<bool>(), 1u8..=3, any::<bool>(), items)
@@ -563,6 +570,7 @@ pub fn doc(cfg: &DocCfg) -> BoxedStrategy<Doc> {
     let blocks = vec(block(cfg), 0..=cfg.max_blocks);
     let title_p = cfg.title_p;
     let start_no = cfg.number_from;
+    let wellnested = cfg.force_wellnested;
     let title: BoxedStrategy<Option<Blk>> = if title_p > 0.0 {
         let mut tcfg = cfg.clone();
         if !cfg.on("link_in_title") {
@@ -616,6 +624,19 @@ pub fn doc(cfg: &DocCfg) -> BoxedStrategy<Doc> {
             if let Some(l) = long {
                 let pos = blocks.len() / 2;
                 blocks.insert(pos, l);
+            }
+            if wellnested {
+                let mut prev = 0u8;
+                for b in blocks.iter_mut() {
+                    if let Blk::Head { level, setext, .. } = b {
+                        let l = (*level).min(prev + 1).max(1);
+                        *level = l;
+                        if l > 2 {
+                            *setext = false;
+                        }
+                        prev = l;
+                    }
+                }
             }
             if !adjacent_lists {
                 separate_lists(&mut blocks);
